@@ -212,6 +212,7 @@ impl Visitor<'_, '_> {
         op: Sp<ast::AssignOpKind>,
         value: &Sp<ast::Expr>,
     ) -> ImplResult {
+        self.check_var_is_assignable(var)?;
         let var_ty = self.check_var(var);
         let value_ty = self.check_expr_as_value(value, op.span);
         let (var_ty, value_ty) = (var_ty?, value_ty?);
@@ -226,6 +227,19 @@ impl Visitor<'_, '_> {
                 self.binop_check(sp!(op.span => binop), (var_ty, value_ty), (var.span, value.span))
             },
         }
+    }
+
+    /// Constants (`const` items, builtin and enum constants) cannot be written to.
+    fn check_var_is_assignable(&self, var: &Sp<ast::Var>) -> ImplResult {
+        if let Err(def_id) = self.ctx.var_reg_from_ast(&var.name) {
+            if self.ctx.defs.var_const_expr(def_id).is_some() {
+                return Err(self.emit(error!(
+                    message("cannot assign to a constant"),
+                    primary(var, "is a constant"),
+                )));
+            }
+        }
+        Ok(())
     }
 
     fn check_stmt_expr(
@@ -245,6 +259,7 @@ impl Visitor<'_, '_> {
         self.require_int(count_ty, count.span, count.span)?;
 
         if let Some(clobber) = clobber {
+            self.check_var_is_assignable(clobber)?;
             let clobber_ty = self.check_var(clobber)?;
             self.require_same((clobber_ty, count_ty), count.span, (clobber.span, count.span))?;
         }
@@ -256,7 +271,13 @@ impl Visitor<'_, '_> {
         return_keyword: ast::TokenSpan,
         expr: &Option<Sp<ast::Expr>>,
     ) -> ImplResult {
-        let func_state = self.cur_func_stack.last_mut().expect("return outside of function?!");
+        let func_state = match self.cur_func_stack.last_mut() {
+            Some(func_state) => func_state,
+            None => return Err(self.checker.emit(error!(
+                message("'return' outside of a function"),
+                primary(return_keyword, ""),
+            ))),
+        };
         func_state.missing_return = false;
 
         let func_def_id = func_state.func_def_id;
